@@ -258,7 +258,7 @@ def run(rep: Report, tier: str) -> None:
 
                 def from_engine(e: ast.AST, fn: Any, depth: int = 0) -> bool:
                     for x in ast.walk(e):
-                        if isinstance(x, ast.Attribute) and x.attr in ("description", "types"):  # cursor description / relation.types (not pandas .dtypes)
+                        if isinstance(x, ast.Attribute) and (x.attr == "description" or (x.attr == "types" and isinstance(x.value, ast.Name) and x.value.id not in ("pd", "pandas", "api"))):  # cursor description / relation.types (not pandas dtypes / pd.api.types)
                             return True
                         if isinstance(x, ast.Call) and isinstance(x.func, ast.Attribute) and x.func.attr in ("execute", "sql") and x.args and "DESCRIBE" in src(x.args[0]).upper():
                             return True
